@@ -108,6 +108,25 @@ Proof.
   pose proof all_summaries_safe_proof as H. rewrite forallb_forall in H. now apply H.
 Qed.
 
+(* ------------------------------------------------------------------ out= *)
+Theorem out_swap_only_target_proof :
+  forall (D : Type) (h : oheap D) (self other : nat),
+    shallow_copy_of D h self other self = h other
+    /\ forall i, i <> self -> shallow_copy_of D h self other i = h i.
+Proof.
+  intros D h self other. unfold shallow_copy_of. split.
+  - now rewrite PeanoNat.Nat.eqb_refl.
+  - intros i Hi. destruct (PeanoNat.Nat.eqb_spec i self); congruence.
+Qed.
+
+Theorem out_protocol_shape_proof : shallow_copy_is_dict_swap && ufunc_swaps_only_out = true.
+Proof. vm_compute. reflexivity. Qed.
+
+Example out_swap_example :
+  let h := fun i => match i with 0 => 10 | 1 => 11 | _ => 12 end in
+  shallow_copy_of nat h 0 2 0 = 12 /\ shallow_copy_of nat h 0 2 1 = 11 /\ shallow_copy_of nat h 0 2 2 = 12.
+Proof. vm_compute. repeat split; reflexivity. Qed.
+
 (* ------------------------------------------------------------------ non-vacuity *)
 (* coords = a.coords.copy(); row = coords[0]; row += 1      (accepted)
    coords = a.coords;        row = coords[0]; row += 1      (rejected, and really changes a.coords) *)
